@@ -754,6 +754,25 @@ impl<'tcx> Cx<'tcx> {
                         ("ty", esc(&self.ty(ty))),
                         ("span", esc(&self.span(tcx.def_span(did)))),
                     ];
+                    // initialiser body of non-scalar constants (e.g. `const MASK: Wrapping<u32> = Wrapping(0xff)`), so that rules can
+                    // look through a named constant exactly as through a literal
+                    if !(ty.is_integral() || ty.is_bool() || ty.is_char()) {
+                        let cbody: &Body<'tcx> = tcx.mir_for_ctfe(did);
+                        let mut cblocks = vec![];
+                        for (_bb, data) in cbody.basic_blocks.iter_enumerated() {
+                            let stmts: Vec<String> = data.statements.iter().filter_map(|s| self.stmt(did, cbody, s)).collect();
+                            let term = match &data.terminator {
+                                Some(t) => self.term(did, cbody, t),
+                                None => "null".into(),
+                            };
+                            cblocks.push(obj(vec![("stmts", arr(stmts)), ("term", term), ("cleanup", data.is_cleanup.to_string())]));
+                        }
+                        let mut clocals = vec![];
+                        for (_l, d) in cbody.local_decls.iter_enumerated() {
+                            clocals.push(obj(vec![("ty", esc(&self.ty(d.ty))), ("name", "null".into())]));
+                        }
+                        items.push(("body", obj(vec![("locals", arr(clocals)), ("blocks", arr(cblocks))])));
+                    }
                     if ty.is_integral() || ty.is_bool() {
                         if let Ok(val) = tcx.const_eval_poly(did) {
                             if let Some(si) = val.try_to_scalar_int() {
